@@ -11,7 +11,8 @@
 (* Clauses (on every accepted event):                                                                          *)
 (*   Z3Sound / SymPySound : ~Refuted(goal | prems) -- no assignment of the free variables over the finite      *)
 (*                 sub-domains makes every premise true and the goal false under HOL's meaning (C06_Sem)       *)
-(*   SolverConsulted : a Z3 step ran with check_z3 = TRUE (with the flag off the step asserts without solving) *)
+(*   SolverConsulted : a Z3 proof step (macro / checker) ran with check_z3 = TRUE; with the flag off the step    *)
+(*                 asserts every goal without calling the solver                                              *)
 (* Not examined (nt = FALSE): goals outside the evaluable fragment (transcendental functions, functions over   *)
 (* nat, > 4 free variables, ...), goals whose truth value is "N" under every assignment.                       *)
 (* Divergence (informational): the step declined a goal that is decided TRUE under every assignment.           *)
@@ -24,7 +25,7 @@ Out(e) == IF Exam(e) /\ (e.acc = "yes" \/ (e.acc = "no" /\ SeqFV(e.goal, e.prems
 IsZ3(e) == e.solver \in {"z3.solve", "z3.macro", "z3.proof"}
 ClausesO(e, o) ==
   (IF e.acc = "yes" /\ "F" \in o THEN {IF IsZ3(e) THEN "Z3Sound" ELSE "SymPySound"} ELSE {})
-  \cup (IF IsZ3(e) /\ e.acc = "yes" /\ e.flag # TRUE THEN {"SolverConsulted"} ELSE {})
+  \cup (IF e.solver \in {"z3.macro", "z3.proof"} /\ e.acc = "yes" /\ e.flag # TRUE THEN {"SolverConsulted"} ELSE {})
 NontrivialO(e, o) == e.acc = "yes" /\ o # {"N"}
 DivergesO(e, o) == e.acc = "no" /\ o = {"T"}
 Clauses(e) == ClausesO(e, Out(e))
